@@ -1,6 +1,6 @@
 (* C01 -- static tripwire over the freeze protocol of the library.
    `expected_protect` is the census of protect sites (`x.flags.writeable = False` statements + immutable_filter calls per
-   function) of static-frame 0.8.8 as pinned in /repo; Gen/Gen_c01.v holds the census of the CURRENT source, regenerated on
+   function) of static-frame 0.8.8 as pinned in /repo (re-pinned after fix commits 72854e7 f0b8a42 c94a7b3 50ff628, which only added sites); Gen/Gen_c01.v holds the census of the CURRENT source, regenerated on
    every run.  The property theorems state that no function has lost a protect site and that the only function that sets
    flags.writeable = True is the whitelisted one.  NO proofs in this file. *)
 Require Import SF.Prelude.
@@ -29,6 +29,7 @@ Definition thaw_whitelist : list string := ["type_blocks.TypeBlocks.equals"].
 
 Definition expected_protect : list (string * nat) := [
   ("array_go.ArrayGO.__init__", 2);
+  ("array_go.ArrayGO.__setstate__", 1);
   ("array_go.ArrayGO._update_array_cache", 2);
   ("container_util.apply_binary_operator", 1);
   ("container_util.array_from_value_iter", 1);
@@ -52,7 +53,7 @@ Definition expected_protect : list (string * nat) := [
   ("frame.Frame.pivot_unstack.items", 1);
   ("frame.FrameGO.__setitem__", 1);
   ("index.Index.__init__", 1);
-  ("index.Index.__setstate__", 1);
+  ("index.Index.__setstate__", 2);
   ("index.Index._drop_iloc", 2);
   ("index.Index._extract_labels", 2);
   ("index.Index._extract_positions", 1);
@@ -110,6 +111,7 @@ Definition expected_protect : list (string * nat) := [
   ("series.Series.sort_index", 1);
   ("series.Series.sort_values", 1);
   ("series.SeriesAssign.__call__", 1);
+  ("type_blocks.TypeBlocks.__round__", 1);
   ("type_blocks.TypeBlocks.__setstate__", 1);
   ("type_blocks.TypeBlocks._assign_from_bloc_by_blocks", 1);
   ("type_blocks.TypeBlocks._assign_from_bloc_by_coordinate", 1);
